@@ -30,4 +30,10 @@ theorem blockID_equals_is_model_equality (a b : VoteSet.BlockID) :
     commit made from the array carries the votes of the majority (C15 `commit_verifies`, C02) -/
 theorem voteSet_copies_every_vote_of_the_majority (b : Bool) : Gen.e_voteSet_copy_cond (vote_notNil := b) = b := rfl
 
+/-- ... and that conjunction is the WHOLE function: one return, no case apart (no early answer for ids
+    without hash, for instance) -/
+theorem blockID_equals_has_no_special_case :
+    Gen.t_blockID_equals_shape =
+      "return bytes.Equal(blockID.Hash, other.Hash) && blockID.PartsHeader.Equals(other.PartsHeader)" := rfl
+
 end AnnVerif.Ties
